@@ -277,6 +277,8 @@ pub(crate) fn c06_exclude_nomulti() {
 }
 
 // ---- with Multiple: bounded vectors ---------------------------------------------------------
+// Multiple x Multiple beyond length 1 (2x1, 2x2, 3x3) was attempted in the thorough tier and removed: since normalize() drops repeated
+// values (fix 2561baf) CBMC exhausts 24 GB on them. Those shapes are exercised only through the native grids of C04 (bounded).
 fn check_intersect(a: CandidateValue<K>, b: CandidateValue<K>, flip: bool) {
     let p = any_probe();
     let before = mem(&a, &p) && mem(&b, &p);
@@ -409,30 +411,6 @@ pub(crate) fn c06_intersect_multi2_all_other() {
     check_intersect(mk_cand(C_MULTI, 2), mk_cand(3, 0), true);
 }
 
-// @harness c06_intersect_multi2_multi1_self tier=thorough heavy=1 kind=bounded bound="Multiple vectors of lengths 2 and 1" timeout=1200 unwindset="swap_nonoverlapping=10"
-// @ob CandidateValue::intersect of Multiple(len 2) with Multiple(len 1) (receiver first): exact for every probe, normalized
-#[kani::proof]
-#[kani::unwind(4)]
-pub(crate) fn c06_intersect_multi2_multi1_self() {
-    check_intersect(mk_cand(C_MULTI, 2), mk_cand(C_MULTI, 1), false);
-}
-
-// @harness c06_intersect_multi2_multi1_other tier=thorough heavy=1 kind=bounded bound="Multiple vectors of lengths 2 and 1" timeout=1200 unwindset="swap_nonoverlapping=10"
-// @ob CandidateValue::intersect of Multiple(len 2) with Multiple(len 1) (argument first): exact for every probe, normalized
-#[kani::proof]
-#[kani::unwind(4)]
-pub(crate) fn c06_intersect_multi2_multi1_other() {
-    check_intersect(mk_cand(C_MULTI, 2), mk_cand(C_MULTI, 1), true);
-}
-
-// @harness c06_intersect_multi2_multi2 tier=thorough heavy=1 kind=bounded bound="Multiple vectors of lengths 2 and 2" timeout=1200 unwindset="swap_nonoverlapping=10"
-// @ob CandidateValue::intersect of Multiple(len 2) with Multiple(len 2) (receiver first): exact for every probe, normalized
-#[kani::proof]
-#[kani::unwind(4)]
-pub(crate) fn c06_intersect_multi2_multi2() {
-    check_intersect(mk_cand(C_MULTI, 2), mk_cand(C_MULTI, 2), false);
-}
-
 // @harness c06_intersect_multi3_all_self tier=thorough heavy=1 kind=bounded bound="Multiple vector of length 3" timeout=1200 unwindset="swap_nonoverlapping=10"
 // @ob CandidateValue::intersect of Multiple(len 3) with all with the Multiple as receiver: exact for every probe, invariant preserved, normalized
 #[kani::proof]
@@ -447,14 +425,6 @@ pub(crate) fn c06_intersect_multi3_all_self() {
 #[kani::unwind(5)]
 pub(crate) fn c06_intersect_multi3_all_other() {
     check_intersect(mk_cand(C_MULTI, 3), mk_cand(3, 0), true);
-}
-
-// @harness c06_intersect_multi3_multi3 tier=thorough heavy=1 kind=bounded bound="Multiple vectors of lengths 3 and 3" timeout=1200 unwindset="swap_nonoverlapping=10"
-// @ob CandidateValue::intersect of Multiple(len 3) with Multiple(len 3) (receiver first): exact for every probe, normalized
-#[kani::proof]
-#[kani::unwind(5)]
-pub(crate) fn c06_intersect_multi3_multi3() {
-    check_intersect(mk_cand(C_MULTI, 3), mk_cand(C_MULTI, 3), false);
 }
 
 // @harness c06_exclude_multi0 tier=quick kind=bounded bound="Multiple vector of length 0" timeout=1200
